@@ -230,13 +230,13 @@ Ltac unfold_all :=
     validate_MinErrorFlow, validate_kFlowDecompCycles, validate_kLeastAbsErrorsCycles, validate_kMinPathErrorCycles,
     validate_kPathCoverCycles, validate_MinPathCoverCycles, validate_MinFlowDecompCycles,
     mfd_solve, kfd_core, kfdc_core, front_cover, front, front_node, front_edge, front_cover, v_stdag, v_stdigraph, v_ssg_common, v_nodeexp,
-    v_maxflow, v_pathmodel, v_walkmodel, v_walkmodel_k, k_own_bad, k_base_bad, k_bad, st_of, en_of, no_src, no_snk, VE in *.
+    v_maxflow, v_pathmodel, v_walkmodel, v_walkmodel_k, k_own_bad, k_base_bad, k_base_bad_gen, k_bad_gen, k_bad, st_of, en_of, no_src, no_snk, VE in *.
 Ltac unfold_dom :=
   unfold in_domain_stDAG, in_domain_stDiGraph, in_domain_NodeExpandedDiGraph, in_domain_kFlowDecomp, in_domain_MinFlowDecomp,
     in_domain_kMinPathError, in_domain_kLeastAbsErrors, in_domain_kErrDAG, in_domain_kPathCover, in_domain_MinPathCover,
     in_domain_MinErrorFlow, in_domain_kFlowDecompCycles, in_domain_MinFlowDecompCycles, in_domain_kLeastAbsErrorsCycles,
     in_domain_kMinPathErrorCycles, in_domain_kErrCycles, in_domain_kPathCoverCycles, in_domain_MinPathCoverCycles,
-    dom_graph_dag, dom_graph_cyc, dom_size, dom_ign, dom_starts, dom_weights, dom_cons, dom_covlen, dom_flow, origin_ok in *.
+    k_dom, dom_graph_dag, dom_graph_cyc, dom_size, dom_ign, dom_starts, dom_weights, dom_cons, dom_covlen, dom_flow, origin_ok in *.
 
 (* ================================================================== stDAG *)
 Theorem validate_sound_stDAG i : validate_stDAG i = RaiseValueError -> in_domain_stDAG i = false.
@@ -337,12 +337,12 @@ Lemma wf_node_facts i : origin i = ONode -> cons_wf i = true ->
 Proof. intros O W. apply cons_ok_node in W as [W1 W2]; auto. Qed.
 Lemma k_pos_facts i : k_pos_int i = true -> k_is_int i = true /\ k_le0 i = false.
 Proof.
-  unfold k_pos_int, k_is_int, k_le0. destruct (k i); [|discriminate|discriminate].
+  unfold k_pos_int, k_is_int, k_le0. destruct (k i); [|discriminate|discriminate|discriminate|discriminate].
   intros H. split; [reflexivity|]. apply Z.ltb_lt in H. apply Z.leb_gt. exact H.
 Qed.
 Lemma k_pos_from i : k_is_int i = true -> k_le0 i = false -> k_pos_int i = true.
 Proof.
-  unfold k_pos_int, k_is_int, k_le0. destruct (k i); [|discriminate|discriminate].
+  unfold k_pos_int, k_is_int, k_le0. destruct (k i); [|discriminate|discriminate|discriminate|discriminate].
   intros _ H. apply Z.leb_gt in H. apply Z.ltb_lt. exact H.
 Qed.
 
@@ -474,13 +474,13 @@ Definition ign_elem := {| e_w := WPos; e_ign := true |}.
 Definition pair_then_int := [ {| c_is_list := true; c_items := [ {| it_kind := IPair; it_in_graph := true |}; {| it_kind := IInt; it_in_graph := false |} ] |} ].
 
 (* ================================================================== kFlowDecomp *)
-(* OPEN: every weighted element ignored (#24); a bool k together with given weights *)
-Definition deviates_kFlowDecomp (i : input) := all_ignored i || (has_superset i && k_is_true i).
+(* OPEN: every weighted element ignored (#24) *)
+Definition deviates_kFlowDecomp (i : input) := all_ignored i.
 Theorem validate_sound_kFlowDecomp i : validate_kFlowDecomp i = RaiseValueError -> in_domain_kFlowDecomp i = false.
 Proof. intros H. destruct (in_domain_kFlowDecomp i) eqn:D; [exfalso|reflexivity]. sound_script i. Qed.
 Theorem validate_complete_kFlowDecomp i :
   in_domain_kFlowDecomp i = false -> deviates_kFlowDecomp i = false -> validate_kFlowDecomp i = RaiseValueError.
-Proof. intros D V. unfold deviates_kFlowDecomp in V. split_dev V. complete_script i. Qed.
+Proof. intros D V. unfold deviates_kFlowDecomp in V. complete_script i. Qed.
 Theorem accepts_domain_kFlowDecomp i :
   in_domain_kFlowDecomp i = true -> has_live i = true -> validate_kFlowDecomp i = Accept.
 Proof. intros D L. rewrite has_live_all_ignored in L. apply negb_true_iff in L. accept_script i. Qed.
@@ -517,13 +517,22 @@ Proof.
 Qed.
 
 (* ================================================================== kMinPathError / kLeastAbsErrors *)
-(* OPEN: every weighted element ignored (#24); with given weights the caller's k is never looked at *)
-Definition deviates_kErrDAG (i : input) := all_ignored i || (has_superset i && k_bad i).
-Theorem validate_sound_kErrDAG i : validate_kErrDAG i = RaiseValueError -> in_domain_kErrDAG i = false.
-Proof. intros H. destruct (in_domain_kErrDAG i) eqn:D; [exfalso|reflexivity]. sound_script i. Qed.
-Theorem validate_complete_kErrDAG i :
-  in_domain_kErrDAG i = false -> deviates_kErrDAG i = false -> validate_kErrDAG i = RaiseValueError.
-Proof. intros D V. unfold deviates_kErrDAG in V. split_dev V. unfold k_bad in *. complete_script i. Qed.
-Theorem accepts_domain_kErrDAG i :
-  in_domain_kErrDAG i = true -> has_live i = true -> validate_kErrDAG i = Accept.
-Proof. intros D L. rewrite has_live_all_ignored in L. apply negb_true_iff in L. accept_script i. Qed.
+(* OPEN: every weighted element ignored (#24) *)
+Definition deviates_kErrDAG (i : input) := all_ignored i.
+Theorem validate_sound_kErrDAG none_ok i : validate_kErrDAG none_ok i = RaiseValueError -> in_domain_kErrDAG none_ok i = false.
+Proof.
+  intros H. destruct (in_domain_kErrDAG none_ok i) eqn:D; [exfalso|reflexivity].
+  unfold validate_kErrDAG, in_domain_kErrDAG in *. destruct none_ok; sound_script i.
+Qed.
+Theorem validate_complete_kErrDAG none_ok i :
+  in_domain_kErrDAG none_ok i = false -> deviates_kErrDAG i = false -> validate_kErrDAG none_ok i = RaiseValueError.
+Proof.
+  intros D V. unfold deviates_kErrDAG in V. unfold validate_kErrDAG, in_domain_kErrDAG in *.
+  destruct none_ok; bsimp; (destruct (k_bad_gen _ i) eqn:KB; bsimp; [reflexivity|]); unfold k_bad_gen in KB; bsimp; complete_script i.
+Qed.
+Theorem accepts_domain_kErrDAG none_ok i :
+  in_domain_kErrDAG none_ok i = true -> has_live i = true -> validate_kErrDAG none_ok i = Accept.
+Proof.
+  intros D L. rewrite has_live_all_ignored in L. apply negb_true_iff in L.
+  unfold validate_kErrDAG, in_domain_kErrDAG in *. destruct none_ok; accept_script i.
+Qed.
